@@ -270,14 +270,12 @@ def tvSetRow (h : Heap α) (tid : Nat) (key : Int) (vid : Nat) : Except Err (Hea
   let v ← h.getVars vid
   if key > (t.len : Int) then .error .value
   else
-    let (s, e) := sliceBounds t.len key (key + 1)
+    let se := sliceBounds t.len key (key + 1)
     let a ← h.getAddr t.aid
     let width := match (h.tvRows t).head? with | some r => r.length | none => a.total
     let row ← assignAll width v.arr
-    if e = s then .ok h                           -- empty target slice: silently nothing
-    else
-      let b := h.getBuf t.buf
-      .ok { h with bufs := setAt h.bufs t.buf (setAt b (t.off + s) row) }
+    if se.2 = se.1 then .ok h                     -- empty target slice: silently nothing
+    else .ok { h with bufs := setAt h.bufs t.buf (setAt (h.getBuf t.buf) (t.off + se.1) row) }
 
 /-- `TimeVars.append` -/
 def tvAppend (h : Heap α) (t1 t2 : Nat) : Except Err (Heap α) := do
